@@ -34,6 +34,9 @@ func replayC04(i int, raw json.RawMessage, seed int64) hx.Result {
 	if speltOtherwise(&r) {
 		nt += "|name-spelling=" + r.Sp
 	}
+	if bulky(&r) {
+		nt += fmt.Sprintf("|event=%s|bulk=%s|refused=%v", map[bool]string{true: "40KiB", false: "small"}[r.Proto.Big == "mid"], r.Bulk, r.Refused)
+	}
 	if r.VK != "" {
 		nt += "|name-variant=" + variantToken(&r) + "," + r.VPos
 		// the specification names the added key by a token: the letters are the harness's
@@ -56,10 +59,68 @@ func replayC04(i int, raw json.RawMessage, seed int64) hx.Result {
 			res.What += fmt.Sprintf(" [the names of the added keys %v are written %s on the wire]", speltNames(&r),
 				map[string]string{"esc": "with a \\uXXXX escape for one character, which denotes the same name", "case": "in other letter case, which makes them other names (unknown top-level keys)"}[r.Sp])
 		}
+		if bulky(&r) {
+			// the tampering in the size it needs: the wire form is over the size limit, what was added is not
+			res.Key += "/wire-over-64KiB:" + bulkClass(&r)
+			res.What += fmt.Sprintf(" [sizes: the event as built has %s; %s: the wire form is longer than 65536 bytes; "+
+				"the size limit is on the event that surfaces - without the keys stripped on receipt and the white space, redacted if the hash fails]",
+				map[bool]string{true: "about 40 KiB (a content value of 40 KiB)", false: "a few hundred bytes"}[r.Proto.Big == "mid"], bulkStory(&r))
+		}
 		res.NT = nt
 		return *res
 	}
 	return hx.Result{OK: true, NT: nt}
+}
+
+// bulky: the record belongs to the size dimension (TamperBulk of EventIdentity.tla).
+func bulky(r *rec) bool { return r.Bulk != "" && r.Bulk != "none" }
+
+// bulkClass names where the bulk sits, for canonical keys.
+func bulkClass(r *rec) string {
+	if r.Bulk == "pad" {
+		return "white-space"
+	}
+	stripped, other := false, false
+	for _, x := range r.T {
+		switch x {
+		case "unsigned", "age_ts", "outdest":
+			stripped = true
+		case "event_id":
+			if isFormatV1(r.Ver) {
+				other = true
+			} else {
+				stripped = true
+			}
+		default:
+			other = true
+		}
+	}
+	switch {
+	case stripped && other:
+		return "bulk-in-stripped-and-hashed-material"
+	case stripped:
+		return "bulk-in-keys-stripped-on-receipt"
+	}
+	return "bulk-in-hashed-material"
+}
+
+func bulkStory(r *rec) string {
+	if r.Bulk == "pad" {
+		return fmt.Sprintf("%d KiB of white space between the members", padSize(r)/1024)
+	}
+	return fmt.Sprintf("each tampered value (%s) carries %d KiB", strings.Join(sorted(r.T), ", "), sizeOfToken(r.Bulk)/1024)
+}
+
+func padSize(r *rec) int {
+	if r.Proto.Big == "mid" {
+		return sizeOfToken("bulk30")
+	}
+	return sizeOfToken("bulk70")
+}
+
+// bulkString is a JSON string of the token's weight.
+func bulkString(tok, prefix string) json.RawMessage {
+	return q(prefix + strings.Repeat("bulk-0123456789-", sizeOfToken(tok)/16))
 }
 
 // persistable: the error that comes WITH an event callers may keep.
@@ -130,20 +191,30 @@ func tamper(r *rec, orig []byte, idx int, seed int64) []byte {
 		}
 		return k
 	}
+	heavy := bulky(r) && r.Bulk != "pad"
 	if has["con_out_chg"] {
 		if _, ok := con[r.KOut]; !ok {
 			panic("harness: content key to change is absent: " + r.KOut)
 		}
 		con[r.KOut] = valueOf(r.Ver, r.Proto.Type, r.KOut, "tampered", seed)
+		if heavy {
+			con[r.KOut] = bulkString(r.Bulk, "")
+		}
 	}
 	if has["con_out_add"] {
 		con["zz_added"] = q("added by a forger")
+		if heavy {
+			con["zz_added"] = bulkString(r.Bulk, "")
+		}
 	}
 	if has["con_in"] {
 		if _, ok := con[r.KIn]; !ok {
 			panic("harness: content key to change is absent: " + r.KIn)
 		}
 		con[r.KIn] = valueOf(r.Ver, r.Proto.Type, r.KIn, "tampered", seed)
+		if heavy {
+			con[r.KIn] = bulkString(r.Bulk, "")
+		}
 	}
 	if has["tpi_chg"] {
 		var tpi map[string]json.RawMessage
@@ -159,6 +230,9 @@ func tamper(r *rec, orig []byte, idx int, seed int64) []byte {
 		ev[variantName(r, idx)] = variantValue(r)
 	} else if has["top_add"] {
 		ev["zz_top"] = []json.RawMessage{json.RawMessage(`"extra"`), json.RawMessage(`{"a":[1,2]}`), json.RawMessage(`17`)}[idx%3]
+		if heavy {
+			ev["zz_top"] = bulkString(r.Bulk, "")
+		}
 	}
 	if has["origin_chg"] {
 		ev["origin"] = q("evil.example.org")
@@ -168,19 +242,35 @@ func tamper(r *rec, orig []byte, idx int, seed int64) []byte {
 	}
 	if has["unsigned"] {
 		ev[name("unsigned")] = json.RawMessage(`{"age":1,"redacted_because":{"type":"m.room.redaction"}}`)
+		if heavy { // e.g. the stripped state of an invite, the previous content
+			ev[name("unsigned")] = json.RawMessage(`{"age":1,"invite_room_state":[{"type":"m.room.name","content":{"name":` + string(bulkString(r.Bulk, "")) + `}}]}`)
+		}
 	}
 	if has["age_ts"] {
 		ev[name("age_ts")] = json.RawMessage(`1700000000999`)
+		if heavy { // stripped whatever it holds
+			ev[name("age_ts")] = json.RawMessage(`[1700000000999,` + string(bulkString(r.Bulk, "")) + `]`)
+		}
 	}
 	if has["outdest"] {
 		ev[name("outlier")] = json.RawMessage(`true`)
 		ev[name("destinations")] = json.RawMessage(`["evil.example.org"]`)
+		if heavy {
+			ds := make([]string, sizeOfToken(r.Bulk)/32)
+			for i := range ds {
+				ds[i] = fmt.Sprintf(`"hs%07d.destination.example.org"`, i) // 31 bytes and a comma
+			}
+			ev[name("destinations")] = json.RawMessage(`[` + strings.Join(ds, ",") + `]`)
+		}
 	}
 	if has["event_id"] {
 		if isFormatV1(r.Ver) {
 			ev["event_id"] = q("$forged:evil.example.org")
 		} else {
 			ev[name("event_id")] = q(idOf("forged", r.Ver))
+			if heavy {
+				ev[name("event_id")] = bulkString(r.Bulk, "$")
+			}
 		}
 	}
 	switch r.HM {
@@ -218,6 +308,12 @@ func tamper(r *rec, orig []byte, idx int, seed int64) []byte {
 	}
 	if len(esc) > 0 {
 		return writeObj(membersOf(ev, esc, idx%2 == 1, idx/2), idx%2 == 1)
+	}
+	if r.Bulk == "pad" {
+		// the same event in more bytes: white space between the members
+		out := respell(ev)
+		pad := bytes.Repeat([]byte(" \n\t \r   "), padSize(r)/8)
+		return append(append(append([]byte(nil), out[:2]...), pad...), out[2:]...)
 	}
 	if idx%2 == 1 {
 		return respell(ev)
@@ -295,6 +391,16 @@ func runC04(r *rec, idx int, seed int64) *hx.Result {
 		if !persistable(err) || qe == nil {
 			return fail("C04/persistable/"+class, fmt.Sprintf("NewEventFromUntrustedJSON of an event with a %s field (room version %s): want the event next to a persistable error, got event=%v error=%v", r.Proto.Lim, r.Ver, qe != nil, err), nil, fmt.Sprint(err))
 		}
+	} else if r.Refused {
+		// what surfaces - the event without the keys stripped on receipt, redacted if its hash fails - is over the
+		// size limit: no event
+		ve, isVE := err.(gmsl.EventValidationError)
+		if err == nil || !isVE || ve.Code != gmsl.EventValidationTooLarge || ve.Persistable {
+			return fail("C04/size/not-refused/"+class, fmt.Sprintf("NewEventFromUntrustedJSON (room version %s): the event that surfaces is over 65536 bytes, want the size error, got: %v", r.Ver, err), "EventValidationError{TooLarge}", fmt.Sprint(err))
+		}
+		return nil
+	} else if err != nil && bulky(r) {
+		return fail("C04/size/refused/"+class, fmt.Sprintf("NewEventFromUntrustedJSON refuses the event (room version %s): %v", r.Ver, err), nil, fmt.Sprintf("%d bytes on the wire", len(wire)))
 	} else if err != nil {
 		return fail("C04/parse-error/"+class, fmt.Sprintf("NewEventFromUntrustedJSON refuses the event (room version %s): %v", r.Ver, err), nil, string(wire))
 	}
